@@ -2,6 +2,7 @@
 #include "v.h"
 #include "visa.h"
 #include "cpusim.h"
+#include <sys/wait.h>
 
 typedef int (*fn_zd)(void *, size_t);
 typedef struct { const char *name; fn_zd fn; const char *isa; int ok; long calls; uint64_t resmask, alnmask; long positions; } zsym;
@@ -60,12 +61,35 @@ out:
 	if (len + 192 < 8192) { gs_paint(s_buf, p - 96 < s_buf->lo ? s_buf->lo : p - 96, p + len + 96 > s_buf->hi ? s_buf->hi : p + len + 96); s_buf->cur = 0; s_buf->curlen = 0; }
 	else gs_repaint_all(s_buf);
 }
+/* a region larger than 4 GiB (len is a size_t): the non-zero byte sits behind the 4 GiB mark, so a length that is truncated to 32 bits anywhere -
+ * in a kernel, or in the dispatcher stub that has to keep the arguments alive around the one-time selection on the very FIRST call of a process -
+ * misses it.  The region is a MAP_NORESERVE mapping of the shared zero page; each variant runs in a child of its own. */
+static void huge_regions(void)
+{
+	size_t big = (4ull << 30) + (1u << 20) + 40;
+	uint8_t *p = mmap(0, big, PROT_READ | PROT_WRITE, MAP_PRIVATE | MAP_ANONYMOUS | MAP_NORESERVE, -1, 0);
+	if (p == MAP_FAILED) { v_set("huge_region", "skipped: mmap of 4 GiB + 1 MiB failed"); return; }
+	for (int i = 0; i < NSYMS; i++) { if (!syms[i].ok) continue;
+		v_setcase(800000000l + i, "sym=%s region of 4 GiB + 1 MiB + 40, single non-zero byte 5 bytes before the end; %s", syms[i].name, strcmp(syms[i].isa, "disp") ? "direct call" : "first, second and third call of a fresh process through the dispatcher");
+		fflush(stdout); pid_t pid = fork(); if (pid < 0) continue;
+		if (pid == 0) { int bad = 0; alarm(600); p[big - 5] = 0x40; int r1 = syms[i].fn(p, big); if (r1 == 0) bad |= 1;
+			if (!strcmp(syms[i].isa, "disp")) { int r2 = syms[i].fn(p, big); if (r2 == 0) bad |= 2; p[big - 5] = 0; int r3 = syms[i].fn(p, big); if (r3 != 0) bad |= 4; }
+			_exit(bad); }
+		int st = 0; waitpid(pid, &st, 0); syms[i].calls++; char key[200];
+		if (!WIFEXITED(st)) { snprintf(key, sizeof key, "huge-region:crash:%s", syms[i].name); v_viol(key, "child status %x", st); }
+		else if (WEXITSTATUS(st)) { snprintf(key, sizeof key, "%s:%s:huge-region", WEXITSTATUS(st) & 4 ? "zero-reported-nonzero" : "nonzero-missed", syms[i].name); v_viol(key, "len = 4 GiB + 1 MiB + 40: wrong answers bitmask %d (1 = first call missed the byte, 2 = second call missed it, 4 = all-zero region reported non-zero)", WEXITSTATUS(st)); }
+		v_count("huge_region_children", syms[i].name, 1);
+	}
+	munmap(p, big);
+}
 int main(int argc, char **argv)
 {
 	v_init(argc, argv);
-	if (V_NDISPATCHED > 0) cpusim_init();
 	s_buf = gs_new("region", BIG + 8192);
 	for (int i = 0; i < NSYMS; i++) { int ok = v_isa_ok(syms[i].isa); if (ok < 0) v_harness_fail("unknown ISA suffix %s", syms[i].isa); syms[i].ok = ok; if (!ok) v_set("skipped_not_executable_on_host", syms[i].name); }
+	/* before cpusim takes over the dispatch slots: the children below make the real first call through the untouched stub */
+	if (vopt.shard == 0 && vopt.only < 0 && !strcmp(vopt.prop, "C20")) huge_regions(); else if (vopt.only >= 800000000l) { huge_regions(); return v_finish(); }
+	if (V_NDISPATCHED > 0) cpusim_init();
 	int maxlen = 1100, nal = vopt.thorough ? 64 : 6;
 	long idx = 0;
 	for (int i = 0; i < NSYMS; i++) for (int len = 0; len <= maxlen; len++) for (int a = 0; a < nal; a++, idx++) {
